@@ -3355,6 +3355,14 @@ iwrc jbl_merge_patch(struct jbl *jbl, const char *patchjson) {
   }
   iwrc rc = _jbl_node_from_binn(&jbl->bn, &target, false, pool);
   RCGO(rc, finish);
+  if (!target) { // a scalar document: rfc7386 treats a target that is no object like an empty object
+    target = iwpool_calloc(sizeof(*target), pool);
+    if (!target) {
+      rc = iwrc_set_errno(IW_ERROR_ALLOC, errno);
+      goto finish;
+    }
+    target->type = JBV_OBJECT;
+  }
   rc = jbn_merge_patch_from_json(target, patchjson, pool);
   RCGO(rc, finish);
 
@@ -3384,9 +3392,13 @@ iwrc jbl_merge_patch_jbl(struct jbl *jbl, struct jbl *patch) {
   }
   iwrc rc = _jbl_node_from_binn(&jbl->bn, &target, false, pool);
   RCGO(rc, finish);
-  if (!target) {
-    rc = IW_ERROR_INVALID_ARGS;
-    goto finish;
+  if (!target) { // a scalar document: rfc7386 treats a target that is no object like an empty object
+    target = iwpool_calloc(sizeof(*target), pool);
+    if (!target) {
+      rc = iwrc_set_errno(IW_ERROR_ALLOC, errno);
+      goto finish;
+    }
+    target->type = JBV_OBJECT;
   }
   {
     JBLDRCTX ctx = {
